@@ -141,7 +141,10 @@ def preback : P (Nat × Bool) := do return (← get).prevPos
 
 /-- parser.rs:153-156 -/
 def goback (prev : Nat × Bool) : P Unit := do
-  modify fun s => { s with scan := s.scan.goback prev }
+  modify fun s => { s with
+    comments := s.comments.filter (·.pos < prev.1),
+    leadComments := s.leadComments.filter (·.pos < prev.1),
+    scan := s.scan.goback prev }
   let r ← attempt scanNext
   match r with
   | .ok c => setCurrent c
@@ -200,8 +203,10 @@ def lineEndComment : P (Option Comment) := do
     modify fun s => { s with leadComments := #[] }
     let line1 ← lineOf pos
     if line0 = line1 then
+      let comment : Comment := { pos, text := String.ofList text }
+      modify fun s => { s with comments := s.comments.push comment }
       next
-      return some { pos, text := String.ofList text }
+      return some comment
     else
       goback start
       next
